@@ -464,6 +464,15 @@ impl VerifConn {
             })
     }
 
+    /// `Connection::execute_iter`, error unmapped (`NextRowError` is public).
+    pub async fn execute_iter_raw(
+        &self,
+        prepared: PreparedStatement,
+        values: SerializedValues,
+    ) -> Result<QueryPager, NextRowError> {
+        Arc::clone(&self.conn).execute_iter(prepared, values).await
+    }
+
     /// `VerifiedKeyspaceName::new` + `Connection::use_keyspace`.
     pub async fn use_keyspace(&self, name: &str, case_sensitive: bool) -> Result<(), String> {
         let verified = VerifiedKeyspaceName::new(name.to_owned(), case_sensitive)
